@@ -126,6 +126,28 @@ def r2(ctx):
         ctx.inst(R, "pop_ready:promote-then-pop", ok, pp.span, "only matured ops can be popped" if ok else "pop_ready does not promote before popping / pops from another pool")
     others = sorted({b.id for b in ctx.w.bodies.values() if b.crate == "turmoil_io_uring" for bb, t in b.calls(re.compile(r"VecDeque::(pop_front|pop_back|drain)$")) if READY in _fields_of(b, t["args"][0])})
     ctx.inst(R, "ready:consumers", set(others) <= {RS + "pop_ready"}, "", f"ready pool consumed by {others}")
+    # the two pools only change one element at a time (push / extend in, remove / pop out): nothing overwrites or empties a pool as a whole
+    # - completions still waiting there would be lost (no CQE, and the fs effect, which runs when the CQE is handed out, never happens)
+    whole = []
+    npool = 0
+    for b in sorted(ctx.w.bodies.values(), key=lambda b: b.id):
+        if b.crate != "turmoil_io_uring":
+            continue
+        for bb, i, s2 in b.all_stmts():
+            if i != "term" and place_last_field(s2["p"]) in (READY, INFL):
+                whole.append((b.id, s2["s"], "assignment to " + place_last_field(s2["p"]).rsplit("::", 1)[1]))
+        for bb, t in b.calls(re.compile(r"::(clear|truncate|drain|split_off)$|^std::mem::(take|replace|swap)$")):
+            fs = set()
+            for a in t["args"]:
+                fs |= set(_fields_of(b, a))
+            if fs & {READY, INFL}:
+                whole.append((b.id, t["s"], t["f"].rsplit("::", 1)[1] + " on " + sorted(fs & {READY, INFL})[0].rsplit("::", 1)[1]))
+        for bb, t in b.calls(re.compile(r"::(push|push_back|extend|swap_remove|remove|pop_front)$")):
+            if t["args"] and set(_fields_of(b, t["args"][0])) & {READY, INFL}:
+                npool += 1
+    ctx.inst(R, "pools:element-wise", not whole and npool >= 4, whole[0][1] if whole else "", f"{npool} element-wise updates of inflight / ready, no wholesale one" if not whole and npool >= 4 else
+             (f"`{whole[0][0]}` changes a completion pool wholesale ({whole[0][2]}): completions that were still queued there are dropped - no CQE is ever delivered "
+              "for them and their fs effect never happens" if whole else f"only {npool} element-wise pool updates found (re-derive)"))
     nx = ctx.w.bodies.get("<turmoil_io_uring::cqueue::CompletionQueue as std::iter::Iterator>::next")
     if nx:
         ex = []
@@ -142,12 +164,12 @@ def r2(ctx):
             z += fe
         w_ = [bb for bb, t in nx.calls(re.compile(r"with_fs_and_io_uring$"))]
         okz = bool(z) and bool(w_) and all(nx.dominated_by_any(x, edges=z) for x in w_)
-        dec = [s for bb, i, s in nx.all_stmts() if s["r"]["k"] == "bin" and s["r"]["op"] in ("SubWithOverflow", "Sub") and (op_const(s["r"]["b"]) or {}).get("v") == 1]
+        dec = [s_ for bb, i, s_ in nx.all_stmts() if s_["r"]["k"] == "bin" and s_["r"]["op"] in ("SubWithOverflow", "Sub") and (op_const(s_["r"]["b"]) or {}).get("v") == 1]
         ctx.inst(R, "cq-next:bounded-by-sync", okz and len(dec) == 1, nx.span, "at most the number of completions observed by the last sync() is yielded" if okz and len(dec) == 1 else
                  "CompletionQueue::next is not bounded by the count observed at sync()")
     elif ctx.strict:
         ctx.bad(R, "anchor-missing:CompletionQueue::next", "", "CompletionQueue::next not found")
-    ctx.floor(R, 7)
+    ctx.floor(R, 8)
 
 
 def r3(ctx):
@@ -243,6 +265,26 @@ def r4(ctx):
                  f"the ring write charges {shape_str(sa)} against the capacity, the file API charges {shape_str(sb)}: the same write succeeds through one API and fails with ENOSPC through the other")
     elif ctx.strict:
         ctx.bad(R, "exec_write~write_at_internal:space-charged", "", "check_space call not found in one of the siblings")
+    # O_DIRECT: buffer address, file offset and length are each tested against the alignment, by the ring as by the file API
+    # (a test of a sum - `offset + len` - accepts a misaligned offset that the synchronous API refuses with EINVAL)
+    for fid in ("turmoil_io_uring::sim::direct_io_aligned", "turmoil_fs::shim::std::fs::File::read_at_internal", "turmoil_fs::shim::std::fs::File::write_at_internal"):
+        if fid not in ctx.w.bodies:
+            if ctx.strict:
+                ctx.bad(R, f"anchor-missing:{fid}", "", "alignment sibling not found")
+            continue
+        tests = []
+        for fb in ctx.w.family(fid):
+            for bb, t in fb.calls(re.compile(r"::is_multiple_of$")):
+                tests.append((expr_shape(fb, t["args"][0]), t["s"]))
+            for bb, i, s2 in fb.all_stmts():
+                if i != "term" and s2["r"]["k"] == "bin" and s2["r"]["op"] == "Rem":
+                    tests.append((expr_shape(fb, s2["r"]["a"]), s2["s"]))
+        single = [sh for sh, _ in tests if not isinstance(sh, tuple)]
+        ok = len(tests) >= 3 and len(single) == len(tests)
+        ctx.inst(R, f"direct-io-alignment:{fid.rsplit('::', 1)[1]}", ok, tests[0][1] if tests else ctx.w.bodies[fid].span,
+                 f"{len(tests)} separate alignment tests (address, offset, length)" if ok else
+                 f"`{fid}` makes {len(tests)} alignment test(s) {[shape_str(sh) for sh, _ in tests]} instead of testing address, offset and length each on its own: "
+                 "a transfer the other API refuses with EINVAL completes here (or the reverse)")
     # page-cache probe: hit / miss is decided before the page is inserted, in the ring scheduler as in the tokio shim
     n = 0
     for b in sorted(ctx.w.bodies.values(), key=lambda b: b.id):
@@ -260,7 +302,7 @@ def r4(ctx):
             ok = not before
             ctx.inst(R, f"page-cache-probe:{root.id}#{n}", ok, b.term(a)["s"], "cold / warm is decided before the page is inserted" if ok else
                      f"`{root.id}` inserts the page before probing the cache: a cold read always counts as a hit and completes without the disk latency")
-    ctx.floor(R, 10)
+    ctx.floor(R, 13)
 
 
 def r5(ctx):
